@@ -138,10 +138,16 @@ ApplyBuffered(s, e) ==
 Flush(s) == [FoldLeft(ApplyBuffered, s, s.buf) EXCEPT !.buf = <<>>]
 
 \* pruningBuffer.Add
+\* ghost: a cancel that is buffered now is newer than any registration of its key, and it will evict whatever
+\* an older (stale) cancel of the same key would evict - so the older ones are no deviation any more
+Unstale(b, e) ==
+    IF e.op = "c" THEN [i \in DOMAIN b |-> IF b[i].key = e.key /\ b[i].op = "c" THEN [b[i] EXCEPT !.stale = FALSE] ELSE b[i]]
+    ELSE b
 BufAdd(s, e, lim) ==
     IF Len(s.buf) >= lim /\ "D2" \in KnownDefects
-    THEN [s EXCEPT !.leak.D2 = @ \cup ListOf(s.ewl, e.key)]          \* dropped
-    ELSE [s EXCEPT !.buf = Append(@, e)]
+    THEN [s EXCEPT !.leak.D2 = @ \cup ListOf(s.ewl, e.key),          \* dropped (the repaired code has already
+                   !.buf = Unstale(@, e)]                             \*  forgotten the re-registration of the key)
+    ELSE [s EXCEPT !.buf = Append(Unstale(@, e), e)]
 
 BufEntry(r, id, o) == [key |-> <<r, id>>, op |-> o, stale |-> FALSE]
 
@@ -189,7 +195,7 @@ UNCHANGED_SNAP == UNCHANGED <<snaps, sq, cur, jobs>>
 \* a snapshot ("s") / checkpoint ("c") job of version v, see the snapshot section below
 \* conc (ghost): the jobs that were still running when this one was requested
 NewJob(v, kind) == [v |-> v, kind |-> kind, phase |-> "enq", pend |-> <<>>, main |-> "none", done |-> FALSE,
-                    judged |-> FALSE, ok |-> TRUE, conc |-> {k \in DOMAIN jobs : ~jobs[k].done}]
+                    judged |-> FALSE, ok |-> TRUE, miss |-> {}, conc |-> {k \in DOMAIN jobs : ~jobs[k].done}]
 
 -----------------------------------------------------------------------------
 (* block processing *)
@@ -316,6 +322,13 @@ Complete(sn, v) ==
     /\ LET i == CHOOSE k \in DOMAIN sn : v.r \in sn[k] /\ \A m \in DOMAIN sn : v.r \in sn[m] => k <= m
        IN  v.n \subseteq sn[i]
 
+\* the nodes of v that the snapshot DB returned for its root lacks
+MissOf(sn, v) ==
+    IF \E i \in DOMAIN sn : v.r \in sn[i]
+    THEN LET i == CHOOSE k \in DOMAIN sn : v.r \in sn[k] /\ \A m \in DOMAIN sn : v.r \in sn[m] => k <= m
+         IN  v.n \ sn[i]
+    ELSE v.n
+
 \* job j is finished when G has exited and none of its entries is queued or running.  The verdict of
 \* C10 is taken when no job is running any more (then every job finished since the last such moment is
 \* judged): the snapshot DB returned for the root holds the whole version.
@@ -330,7 +343,8 @@ Finish(js, q, c, sn) ==
         idle == \A j \in DOMAIN js1 : js1[j].done
     IN  IF idle
         THEN [j \in DOMAIN js1 |-> IF js1[j].judged THEN js1[j]
-                                    ELSE [js1[j] EXCEPT !.judged = TRUE, !.ok = Complete(sn, js1[j].v)]]
+                                    ELSE [js1[j] EXCEPT !.judged = TRUE, !.ok = Complete(sn, js1[j].v),
+                                                         !.miss = MissOf(sn, js1[j].v)]]
         ELSE js1
 
 \* G of job j calls TakeSnapshot / SetCheckpoint for the main trie
@@ -542,9 +556,24 @@ Overlap(j, k) == k \in jobs[j].conc \/ j \in jobs[k].conc
 ExplainedE2(j) == \E k \in JobIds : k # j /\ Overlap(j, k)
 \* ... and E3, a consequence: a checkpoint only adds the nodes marked since the last snapshot/checkpoint, so it
 \* is incomplete whenever an earlier job left the snapshot DB incomplete (E1/E2)
-ExplainedE3(j) == jobs[j].kind = "c" /\ \E k \in JobIds : k < j /\ jobs[k].judged /\ ~jobs[k].ok
+\* (a snapshot is hit too when the earlier job left the root - of the main trie or of a data trie - in the last
+\* snapshot DB: isPresentInLastSnapshotDb makes takeSnapshot skip that trie; then what it misses was already missed)
+ExplainedE3(j) ==
+    \E k \in JobIds : /\ k < j /\ jobs[k].judged /\ ~jobs[k].ok
+                       /\ (jobs[j].kind = "c" \/ (jobs[j].miss # {} /\ jobs[j].miss \subseteq jobs[k].v.n))
+\* ... and E4: commitCheckpoint unmarks a copied hash in EVERY entry of the hashes holder (Remove(hash)), also in the
+\* entries of newer, already committed roots that contain the same node.  If a snapshot of a root WITHOUT that node
+\* then opens a new snapshot DB, the checkpoint of the newer root does not copy the node (unmarked) and the new DB
+\* lacks it.  Every missing node must be explained that way.
+ExplainedE4(j) ==
+    /\ jobs[j].kind = "c" /\ jobs[j].miss # {}
+    /\ \A x \in jobs[j].miss :
+          \E k, m \in JobIds : /\ k < m /\ m < j
+                                /\ jobs[k].kind = "c" /\ x \in jobs[k].v.n
+                                /\ jobs[m].kind = "s" /\ x \notin jobs[m].v.n
 Inv_C10_CompleteUnexplained ==
-    \A j \in JobIds : (jobs[j].judged /\ ~jobs[j].ok) => (ExplainedE1(j) \/ ExplainedE2(j) \/ ExplainedE3(j))
+    \A j \in JobIds : (jobs[j].judged /\ ~jobs[j].ok) =>
+        (ExplainedE1(j) \/ ExplainedE2(j) \/ ExplainedE3(j) \/ ExplainedE4(j))
 
 \* C10: while a job is running its source nodes stay in the main DB and pruning is blocked
 Inv_C10_Source == \A j \in JobIds : Active(j) => (jobs[j].v.n \subseteq db /\ blocked > 0)
